@@ -50,7 +50,7 @@ PROPS = {
                   "feedback arc set, all_simple_paths, page_rank) is judged by the same oracle / certificate checker, so unique "
                   "answers are equal across encodings and non-unique ones equally valid and optimal; a panic on one encoding is a "
                   "violation; non-trivial = >=3 nodes and >=2 edges; distinct = weighted edge-list hash; cells hit are listed in observed"),
-    "C06": T(30000, 600000,
+    "C06": T(15000, 300000,
              rule="random multigraph (21 families, n<=7, 10%: n<=12) stored in one of the 9 encodings (Graph via shuffled history, "
                   "StableGraph with vacancies at index 0 / inside / trailing, MatrixGraph with removed ids, GraphMap with sparse labels, "
                   "Csr, adj::List); the visit-trait checker compares node_identifiers/node_references/node_count/node_bound/to_index/"
@@ -77,7 +77,7 @@ PROPS = {
                   "simple-graph model keyed by node id; sweeps of every query + raw storage (occupied cells == model edges, nb_edges, "
                   "removed ids) after every op (<=14 nodes) or every 12th; non-trivial = >=10 ops, >=1 node removal, >=3 nodes at the "
                   "end; distinct = hash of (type config, op-kind sequence, final edge set)"),
-    "C03": T(2000, 60000,
+    "C03": T(1500, 30000,
              rule="operation histories on GraphMap<N,u32,Ty,S> (N in i32 incl. negatives/extremes, (u8,u8), &str; directed/undirected; "
                   "hashers RandomState, Fx and an all-keys-collide hasher; 20-300 ops: add_node, add_edge/Build::add_edge/update_edge "
                   "biased to self-loops, reciprocal pairs and re-adding, remove_edge in either orientation, remove_node of hubs, weight "
